@@ -156,11 +156,12 @@ impl UnknownAttributes {
     pub proof fn lemma_ext(a: Self, b: Self) requires a.list() == b.list() ensures a == b { axiom_arc_vec16_ext(a.attrs, b.attrs); }
 //@item stun_rs :: mod attributes > mod stun > mod unknown_attributes > impl UnknownAttributes > fn add
 //@tags C19 C01
-//@sub "Arc::make_mut(" => "vx_arc_make_mut("
+//@subopt "Arc::make_mut(" => "vx_arc_make_mut("
+//@subopt "Arc::get_mut(" => "vx_arc_get_mut("
 //@spec
     // never panics (also on a clone: copy-on-write), keeps the list duplicate-free and in first-insertion order
     ensures final(self).list() == ua_add(old(self).list(), value), no_dups(old(self).list()) ==> no_dups(final(self).list()),
-//@before "vx_arc_make_mut("
+//@stmt "(&mut self.attrs)"
     proof {
         assert(!self.attrs@.contains(value));
         assert(no_dups(self.attrs@) ==> no_dups(self.attrs@.push(value)));
@@ -366,7 +367,8 @@ impl Clone for Algorithm {
 impl PasswordAlgorithms {
 //@item stun_rs :: mod attributes > mod stun > mod password_algorithms > impl PasswordAlgorithms > fn add
 //@tags C19 C01
-//@sub "Arc::make_mut(" => "vx_arc_make_mut("
+//@subopt "Arc::make_mut(" => "vx_arc_make_mut("
+//@subopt "Arc::get_mut(" => "vx_arc_get_mut("
 //@spec
     // never panics, also when the value is a clone sharing its list (copy-on-write); the other copy is a different value
     ensures final(self).algorithms@ == old(self).algorithms@.push(algorithm),
@@ -629,7 +631,7 @@ pub exec const BASE64_STANDARD: B64Engine ensures true { B64Engine }
 impl B64Engine {
     // base64::Engine::decode_slice: writes the decoded bytes into `out`, returns their number (Err on bad input / short output)
     #[verifier::external_body]
-    pub fn decode_slice(&self, input: &[u8], out: &mut [u8]) -> (r: Result<usize, B64Error>)
+    pub fn decode_slice<T: AsRef<[u8]>>(&self, input: T, out: &mut [u8]) -> (r: Result<usize, B64Error>)
         ensures final(out)@.len() == old(out)@.len(), r is Ok ==> r->Ok_0 <= old(out)@.len(),
     { unimplemented!() }
 }
